@@ -259,7 +259,7 @@ def part_convolve(ctx, cs):
 def part_fscale(ctx, cs):
     f = F()
     rng = ctx.rng
-    lens = list(range(1, 301)) + [rng.randrange(301, 100000) for _ in range(40)] + [2 ** 16, 3 ** 9, 30000, 30001]
+    lens = list(range(1, 301)) + [rng.randrange(301, 5001) for _ in range(20)] + [rng.randrange(301, 100000) for _ in range(20)] + [2 ** 16, 3 ** 9, 30000, 30001]
     for ns in lens:
         for one_sided in (False, True):
             si = rng.choice([1, 0.5, 0.002, 1 / 30000, 1 / 2500, 3.0])
@@ -281,7 +281,8 @@ def part_fscale(ctx, cs):
             ref = np.fft.rfftfreq(ns, si) if one_sided else np.abs(np.fft.fftfreq(ns, si))
             if fs.shape == ref.shape and not np.allclose(np.abs(fs), ref, rtol=1e-9, atol=0):
                 ctx.fail("fscale magnitudes differ from numpy's fftfreq", d, {"op": "fscale", "kind": "fftfreq"})
-            cs.add([3, ns, int(one_sided)], [len(bins)] + bins.tolist(), d)
+            if ns <= 5000:
+                cs.add([3, ns, int(one_sided)], [len(bins)] + bins.tolist(), d)
             cs.evals += 1
             cs.count("fscale_odd" if ns % 2 else "fscale_even")
             if ns > 2:
@@ -557,11 +558,28 @@ def part_filters(ctx, cs):
             ts[tuple(rng.randrange(s) for s in shp)] = 1.0          # an impulse somewhere
         dd = dict(d, ts=ts.astype(int).tolist(), axis=axis)
         use_axis = axis if (axis < nd - 1 or rng.random() < 0.5) else None
+        if nd - 1 - axis >= 2:
+            # F-C18-b class: ndim >= 3 and axis <= ndim-3 (the response is reshaped with one new axis only).
+            # Oracle only: each fibre along `axis` must be the 1-D filter of that fibre.
+            kf = {"op": "filter", "class": "ndim>=3,axis<=ndim-3"}
+            try:
+                o = np.asarray(f.lp(ts.copy(), si, bf[0:2], axis=axis))
+                okk = o.shape == ts.shape
+                if okk:
+                    for a_, b_ in zip(fibres(ts, axis), fibres(o, axis)):
+                        okk = okk and np.max(np.abs(np.asarray(f.lp(a_.copy(), si, bf[0:2])) - b_)) <= TOL * max(1.0, np.abs(a_).sum())
+                if not okk:
+                    ctx.fail("lp along axis %d of a %d-D array is not the 1-D filter of each fibre" % (axis, nd), dd, kf)
+            except Exception as e:
+                ctx.fail("lp along axis %d of a %d-D array raised %r" % (axis, nd, e), dd, kf)
+            cs.evals += 1
+            cs.count("filter_3d_outer_axis")
+            continue
         try:
-            o_lp = f.lp(ts.copy(), si, bf[0:2], axis=use_axis)
-            o_hp = f.hp(ts.copy(), si, bf[0:2], axis=use_axis)
-            o_bp = f.bp(ts.copy(), si, bf, axis=use_axis)
-            o_lp2 = f.lp(np.asarray(f.hp(ts.copy(), si, bf[0:2], axis=use_axis)), si, bf[2:4], axis=use_axis)
+            o_lp = np.asarray(f.lp(ts.copy(), si, bf[0:2], axis=use_axis))
+            o_hp = np.asarray(f.hp(ts.copy(), si, bf[0:2], axis=use_axis))
+            o_bp = np.asarray(f.bp(ts.copy(), si, bf, axis=use_axis))
+            o_lp2 = np.asarray(f.lp(np.asarray(f.hp(ts.copy(), si, bf[0:2], axis=use_axis)), si, bf[2:4], axis=use_axis))
         except Exception as e:
             ctx.fail("lp/hp/bp raised %r" % (e,), dd, {"op": "filter", "kind": "exception", "nd": nd})
             continue
